@@ -40,11 +40,11 @@ Trigger(c, run, d) ==
     [] d = "DevTypenameNotCounted"  -> (Configured(run, "complexity") \/ Configured(run, "depth")) /\ TriggerTypenameNotCounted(Ctx0(c, run.flavour, {}))
     [] d = "DevOmittedVarRuleError" -> run.flavour = "static" /\ TriggerOmittedVarRuleError(Ctx0(c, run.flavour, {}))
 
+\* the request was refused before any resolver ran (errors that appear after resolvers ran belong to execution:
+\* they are other properties' business, but they never make a request that had to be refused "refused")
+Refused(obs) == obs.rejected /\ obs.ran = 0 /\ obs.dataNull
 \* the property for one run, `must` = the reference says the request has to be refused
-Agrees(run, must) ==
-  /\ run.obs.problem = ""
-  /\ run.obs.rejected = must
-  /\ (must => run.obs.ran = 0 /\ run.obs.dataNull)
+Agrees(run, must) == run.obs.problem = "" /\ (Refused(run.obs) <=> must)
 
 RECURSIVE JoinSet(_)
 JoinSet(S) == IF S = {} THEN "" ELSE LET x == CHOOSE y \in S : TRUE IN
